@@ -197,6 +197,33 @@ def _finish(mon: Mon, res: Result, check_reads=True, ttl=False):
     res.count("ops_completed", sum(1 for r in mon.hist if r["end"] is not None))
 
 
+def _known_keys():
+    try:
+        from hsverif import findings as kf
+
+        return {kf.key_of(e) for e in kf.for_property(PID) if e.get("status") == "known"}
+    except Exception:  # noqa: BLE001
+        return set()
+
+
+def _make_shrinker(family_name):
+    def shrink(case, still_fails):
+        # Shrinking is best effort and costs ~100 re-runs: skip it when every violation of the case
+        # already has a pinned (small) witness in known_findings.d/C16.json.
+        import os
+
+        if os.environ.get("C16_NOSHRINK"):
+            return case
+        known = _known_keys()
+        if known:
+            r = FAMILIES[family_name].run(case)
+            if r.violations and all(v.key() in known for v in r.violations):
+                return case
+        return _shrink_clients(case, still_fails)
+
+    return shrink
+
+
 def _shrink_clients(case, still_fails):
     """ddmin over the flattened (client, op) list, then try dropping optional parts."""
     flat = [(ci, j) for ci, c in enumerate(case["clients"]) for j in range(len(c["ops"]))]
@@ -209,7 +236,7 @@ def _shrink_clients(case, still_fails):
         ]
         return c2
 
-    best = ddmin(flat, lambda items: still_fails(build(items)), max_tests=250)
+    best = ddmin(flat, lambda items: still_fails(build(items)), max_tests=150)
     out = build(best)
     for opt in ("warmer", "prewarm"):
         if out.get(opt):
@@ -662,13 +689,13 @@ def run_pagecache(case: dict) -> Result:
 # --------------------------------------------------------------------------
 
 FAMILIES = {
-    "cached": Family("cached", gen_cached, run_cached, shrink=_shrink_clients, case_timeout=30.0),
-    "multitier": Family("multitier", gen_multitier, run_multitier, shrink=_shrink_clients, case_timeout=30.0),
-    "softttl": Family("softttl", gen_softttl, run_softttl, shrink=_shrink_clients, case_timeout=30.0),
-    "pagecache": Family("pagecache", gen_pagecache, run_pagecache, shrink=_shrink_clients, case_timeout=30.0),
+    "cached": Family("cached", gen_cached, run_cached, shrink=_make_shrinker("cached"), case_timeout=30.0),
+    "multitier": Family("multitier", gen_multitier, run_multitier, shrink=_make_shrinker("multitier"), case_timeout=30.0),
+    "softttl": Family("softttl", gen_softttl, run_softttl, shrink=_make_shrinker("softttl"), case_timeout=30.0),
+    "pagecache": Family("pagecache", gen_pagecache, run_pagecache, shrink=_make_shrinker("pagecache"), case_timeout=30.0),
 }
 
 BUDGET = {
-    "quick": {"cached": 1500, "multitier": 500, "softttl": 600, "pagecache": 300},
+    "quick": {"cached": 3000, "multitier": 1200, "softttl": 2000, "pagecache": 600},
     "thorough": {"cached": 60000, "multitier": 15000, "softttl": 20000, "pagecache": 5000},
 }
